@@ -269,3 +269,67 @@ func checkTitleEncoding(c *Ctx) {
 		r.Bad("C36.R5", "pkg/pdfcpu/bookmark.go", "store /Title", "", "UNRESOLVED-ANCHOR: no function of pkg/pdfcpu/bookmark.go stores an outline item /Title")
 	}
 }
+
+// ---------------- C36.R6 (round 3 of seeding): the resolver consults the store the writer registers in ----------------
+
+// checkDestinationStoreOrder: imported bookmarks get a named destination that bmDict registers in the Dests NAME TREE
+// (ctx.Names["Dests"].Add). XRefTable.DereferenceDestArray resolves a name for export; a document may also carry a
+// legacy catalog /Dests dictionary with the same key. The name tree has to be asked first on every path, otherwise a
+// legacy entry shadows the destination the import just created and the bookmark comes back with another page.
+func checkDestinationStoreOrder(c *Ctx) {
+	p, r := c.P, c.R
+	fid := "pkg/pdfcpu/model.(*XRefTable).DereferenceDestArray"
+	fn := p.Func(fid)
+	if fn == nil {
+		r.Bad("C36.R6", fid, "anchor", "", "UNRESOLVED-ANCHOR")
+		return
+	}
+	// the writer side: does bmDict register in Names["Dests"]?
+	writerTree := false
+	if w := p.Func("pkg/pdfcpu.bmDict"); w != nil {
+		eachInstr(w, func(_ *ssa.BasicBlock, _ int, i ssa.Instruction) {
+			if lk, ok := i.(*ssa.Lookup); ok && strings.HasSuffix(fieldPath(lk.X), "Names") {
+				if k, ok := constString(lk.Index); ok && k == "Dests" {
+					writerTree = true
+				}
+			}
+		})
+	}
+	if !writerTree {
+		r.Bad("C36.R6", "pkg/pdfcpu.bmDict", "destination store", "", "UNRESOLVED-ANCHOR: the bookmark writer no longer registers destinations in Names[\"Dests\"]")
+		return
+	}
+	isTree := func(i ssa.Instruction) bool {
+		lk, ok := i.(*ssa.Lookup)
+		if !ok || !strings.HasSuffix(fieldPath(lk.X), "Names") {
+			return false
+		}
+		k, ok := constString(lk.Index)
+		return ok && k == "Dests"
+	}
+	ff := NewFactFlow(fn, func(i ssa.Instruction) []string {
+		if isTree(i) {
+			return []string{"tree"}
+		}
+		return nil
+	}, nil, nil, nil)
+	n := 0
+	eachInstr(fn, func(_ *ssa.BasicBlock, _ int, i ssa.Instruction) {
+		lk, ok := i.(*ssa.Lookup)
+		if !ok || !strings.HasSuffix(fieldPath(lk.X), ".Dests") && fieldPath(lk.X) != "Dests" {
+			return
+		}
+		if isTree(i) {
+			return
+		}
+		n++
+		if ff.Holds(lk, "tree") {
+			r.OK("C36.R6", fid, "legacy /Dests lookup", p.Pos(lk.Pos()), "the Dests name tree (where the bookmark writer registers) is consulted first on every path", true)
+		} else {
+			r.Bad("C36.R6", fid, "legacy /Dests lookup", p.Pos(lk.Pos()), "the legacy catalog /Dests dictionary is consulted before the Dests name tree: the bookmark writer registers new destinations in the name tree, so a legacy key equal to a bookmark title shadows the entry an import just created and the bookmark is exported with another page")
+		}
+	})
+	if n == 0 {
+		r.OK("C36.R6", fid, "legacy /Dests lookup", p.Pos(fn.Pos()), "no legacy lookup: only the name tree is consulted", true)
+	}
+}
